@@ -560,6 +560,8 @@ class Engine:
         st = st.copy()
         st.env['result'] = result
         for c in con.ensures:
+            if c.label.startswith('A-'):
+                continue        # a stated assumption carried by the contract (assumed at call sites, listed in the evidence, never discharged)
             v = self.eval_clause(c, st, old)
             self.oblige(st, v, 'ensures', c.label, c.tags, line, site=retlabel)
 
@@ -823,8 +825,12 @@ class Engine:
             for n in ast.walk(s):
                 if isinstance(n, ast.Call):
                     w |= self.dom.call_frame(self, n)
+        stars = [x[2:] for x in w if isinstance(x, str) and x.startswith('*:')]
         for key in list(st.heap):
-            if key[1] in w or '*' in w or (key[0] == 'params' and 'params!' in w):
+            hit = key[1] in w or (key[0] == 'params' and 'params!' in w)
+            if not hit and stars and key[0] not in ('G', 'params'):
+                hit = any(key[0] == s_ or key[0].endswith('.' + s_) or ('.' + s_ + '.') in key[0] for s_ in stars if s_ not in ('self', 'G'))
+            if hit:
                 st.heap[key] = self.dom.fresh_like(key[1], st.heap[key], st, None)
         return w
 
@@ -1087,7 +1093,8 @@ class Engine:
         self.dom.spec_roots(cst, st)
         for c in con.requires:
             v = self.eval_clause(c, cst, None)
-            if top:
+            if top and not c.label.startswith('A-'):
+                # clauses labelled A-... are stated assumptions of the callee (e.g. A-nan): assumed, listed in the evidence, never discharged
                 self.oblige(st, v, 'requires@call', c.label, c.tags, node.lineno, site=site)
             st.assume(self.dom.truth(v, st) if not is_unk(v) else z3.BoolVal(True))
         old = cst.copy()
